@@ -814,12 +814,14 @@ impl Engine for C03 {
         }
     }
 
-    fn generate(&self, rng: &mut Rng, _tier: Tier) -> Case {
-        let nspends = match rng.below(10) {
+    fn generate(&self, rng: &mut Rng, tier: Tier) -> Case {
+        let deep = tier == Tier::Thorough && rng.chance(1, 5);
+        let nspends = if deep { rng.range(3, 5) } else { 0 };
+        let nspends = if nspends > 0 { nspends as usize } else { match rng.below(10) {
             0..=4 => 1,
             5..=7 => 2,
             _ => 3,
-        };
+        } };
         let mut spends: Vec<Spend> = vec![];
         let mut anchors: Vec<u64> = vec![];
         // swarm: a per-run subset of kinds
@@ -928,7 +930,7 @@ impl Engine for C03 {
         let mut births: Vec<(u32, u64)> = (0..nspends).map(|_| (pick_birth_h(rng, &anchors), pick_birth_t(rng, &anchors))).collect();
         case.births = births.clone();
         let witness = reference.witness(&case);
-        let nevents = rng.range(4, 40) as usize;
+        let nevents = if deep { rng.range(30, 90) as usize } else { rng.range(4, 40) as usize };
         let witness_at = if witness.is_some() { Some(rng.usize_below(nevents)) } else { None };
         let (mut hs, mut ts) = reference.thresholds(&case, &births);
         let mut cur_h = *hs.iter().next().unwrap();
